@@ -57,18 +57,33 @@ Proof.
   - rewrite Hg. destruct Hq as [-> | Hq]; [|discriminate]. fin.
 Qed.
 
-Lemma rs_line_counts_spec q x :
-  line_good Rs x = true -> q_rs_block_comment_counted q = false \/ lkind_eqb (l_kind x) LBlockComment = false ->
-  rs_line_counts q x = is_code x.
+(* TypeScript / JavaScript / Rust: the // filter *)
+Lemma slash_counts_spec l b x :
+  l <> Py -> line_good l x = true -> b = false \/ lkind_eqb (l_kind x) LBlockComment = false ->
+  text_counts "//" x && (b || negb (lkind_eqb (l_kind x) LBlockComment)) = is_code x.
 Proof.
-  destruct x as [k t]. unfold line_good, rs_line_counts, text_counts, is_code, rs_comment_prefix, block_marker. cbn [l_kind l_text comment_marker].
+  intros Hl. assert (Hm : comment_marker l = "//") by (destruct l; [congruence | reflexivity..]).
+  assert (Hb : forall t, match l with Py => false | _ => starts_with block_marker t end = starts_with "/*" t) by (destruct l; [congruence | reflexivity..]).
+  assert (Hc : forall t, match l with Py => true | _ => negb (starts_with block_marker t) end = negb (starts_with "/*" t)) by (destruct l; [congruence | reflexivity..]).
+  assert (Hh : forall t, match l with Py => starts_with "#" t | _ => false end = false) by (destruct l; [congruence | reflexivity..]).
+  destruct x as [k t]. unfold line_good, text_counts, is_code. cbn [l_kind l_text]. rewrite Hm.
   destruct k; cbn [lkind_eqb]; intros Hg Hq.
   - apply String.eqb_eq in Hg. subst t. fin.
   - rewrite Hg. fin.
-  - destruct (block_not_line t Hg) as [H1 H2]. rewrite H1, H2. destruct Hq as [-> | Hq]; [|discriminate]. fin.
+  - rewrite Hb in Hg. destruct (block_not_line t Hg) as [H1 H2]. rewrite H1, H2. destruct Hq as [-> | Hq]; [|discriminate]. fin.
   - apply andb_prop in Hg. destruct Hg as [Hg _]. rewrite Hg. fin.
-  - discriminate.
+  - rewrite Hh in Hg. discriminate.
 Qed.
+
+Lemma rs_line_counts_spec q x :
+  line_good Rs x = true -> q_rs_block_comment_counted q = false \/ lkind_eqb (l_kind x) LBlockComment = false ->
+  rs_line_counts q x = is_code x.
+Proof. intros Hg Hq. unfold rs_line_counts, rs_comment_prefix. apply (slash_counts_spec Rs); [discriminate | exact Hg | exact Hq]. Qed.
+
+Lemma ts_line_counts_spec q l x :
+  l = Ts \/ l = Js -> line_good l x = true -> q_ts_block_comment_counted q = false \/ lkind_eqb (l_kind x) LBlockComment = false ->
+  ts_line_counts q "//" x = is_code x.
+Proof. intros Hl Hg Hq. unfold ts_line_counts. apply (slash_counts_spec l); [destruct Hl; subst; discriminate | exact Hg | exact Hq]. Qed.
 
 Section Loc.
   Variable lines : list line.
@@ -101,50 +116,35 @@ Section Loc.
   Qed.
 
   Lemma ts_count_loc_spec q c :
-    span_good (List.length lines) (c_line c) (c_len c) = true ->
-    q_ts_loc_raw_span q = false \/ forallb is_code (extent lines (c_line c) (c_len c)) = true ->
-    ts_count_loc q lines c = spec_loc lines (c_line c) (c_len c).
+    l = Ts \/ l = Js -> span_good (List.length lines) (c_line c - c_deco c) (c_len c) = true ->
+    q_ts_block_comment_counted q = false \/ forallb (fun x => negb (lkind_eqb (l_kind x) LBlockComment)) lines = true ->
+    ts_count_loc q lines c = spec_loc lines (c_line c - c_deco c) (c_len c).
   Proof.
-    intros Hs Hq. destruct (span_good_inv _ _ _ Hs) as (H1 & H2 & H3).
-    unfold ts_count_loc, spec_loc, ts_loc_span_plus.
-    destruct (q_ts_loc_raw_span q).
-    - destruct Hq as [Hq | Hq]; [discriminate|]. rewrite (filter_all _ _ Hq), (extent_length _ _ _ Hs). lia.
-    - now rewrite slice_extent by exact H1.
+    intros Hl Hs Hq. destruct (span_good_inv _ _ _ Hs) as (H1 & H2 & H3).
+    unfold ts_count_loc, spec_loc, ts_loc_mode. rewrite Nat.sub_0_r.
+    replace (c_line c - c_deco c + c_len c - 2 + 1) with (c_line c - c_deco c + c_len c - 1) by lia. rewrite slice_extent by exact H1.
+    apply filter_length_ext. intros x Hx. apply extent_In in Hx. apply (ts_line_counts_spec q l x Hl).
+    - exact (forallb_In _ _ _ Hlines Hx).
+    - destruct Hq as [Hq | Hq]; [now left | right]. pose proof (forallb_In _ _ _ Hq Hx) as E. now apply negb_true_iff in E.
   Qed.
 End Loc.
 
 (* ------------------------------------------------------------------ Rust: which impl blocks belong to a struct *)
-Lemma rs_target_spec q n i :
-  impl_good n i = true ->
-  q_rs_trait_first_ident q = false \/ (match i_trait i with TSimple _ => false | _ => true end) = true ->
-  q_rs_generic_impl_lost q = false \/ i_generic i = false ->
-  rs_target q i = i_self i.
-Proof.
-  intros Hg Ht Hgen. unfold impl_good in Hg.
-  apply andb_prop in Hg. destruct Hg as [Hg _]. apply andb_prop in Hg. destruct Hg as [Hg _]. apply andb_prop in Hg. destruct Hg as [Hn _].
-  apply negb_true_iff in Hn.
-  destruct i as [self tr gen path line len ms]. cbn [i_self i_trait i_generic] in *.
-  unfold rs_target, impl_nodes, trait_nodes, self_nodes, first_of_type, rs_target_node_type. cbn [i_self i_trait i_generic].
-  destruct (q_rs_trait_first_ident q).
-  - destruct Ht as [Ht | Ht]; [discriminate|].
-    destruct tr as [|t|p t]; [|discriminate|]; destruct gen; cbn; rewrite ?Hn; try reflexivity;
-      destruct Hgen as [-> | Hgen]; try discriminate; reflexivity.
-  - destruct gen; cbn; rewrite ?Hn; try reflexivity. destruct Hgen as [-> | Hgen]; [reflexivity | discriminate].
-Qed.
+(* repaired get_impl_target_name: the implementing type, for inherent, trait and generic impl blocks alike *)
+Lemma rs_target_spec i : rs_target i = i_self i.
+Proof. unfold rs_target, rs_target_mode. destruct (i_generic i); reflexivity. Qed.
 
 Lemma rs_assoc_spec q n s i :
   impl_good n i = true ->
-  q_rs_trait_first_ident q = false \/ (match i_trait i with TSimple _ => false | _ => true end) = true ->
-  q_rs_generic_impl_lost q = false \/ i_generic i = false ->
   q_rs_name_collision q = false \/ implb (String.eqb (s_name s) (i_self i)) (path_eqb (s_path s) (i_path i)) = true ->
   rs_assoc q s i = own_impl s i.
 Proof.
-  intros Hg Ht Hgen Hc. unfold rs_assoc, own_impl. rewrite (rs_target_spec q n i Hg Ht Hgen).
+  intros Hg Hc. unfold rs_assoc, own_impl. rewrite (rs_target_spec i).
   assert (Hn : String.eqb (i_self i) "" = false).
   { unfold impl_good in Hg. apply andb_prop in Hg. destruct Hg as [Hg _]. apply andb_prop in Hg. destruct Hg as [Hg _].
     apply andb_prop in Hg. destruct Hg as [Hn _]. now apply negb_true_iff in Hn. }
   rewrite Hn. cbn [negb]. rewrite andb_true_r.
-  change (rs_struct_name s) with (s_name s).
+  change (rs_struct_key s) with (s_name s).
   destruct Hc as [-> | Hc]; [reflexivity|].
   destruct (String.eqb (s_name s) (i_self i)); cbn in Hc |- *; [rewrite Hc; now rewrite orb_true_r | reflexivity].
 Qed.
